@@ -88,6 +88,40 @@ def c10(tier, seed):
     return st
 
 
+def norm_consts(tier):
+    q = tier == "quick"
+    return dict(Paths="<-PathsOv", Vals="<-ValsOvQuick" if q else "<-ValsOv", MaxEntries=3,
+                FlatTrees="<-TreeD2Quick" if q else "<-TreeD2", PolSet="<-PolsD" if q else "<-PolsDA")
+
+
+def c05(tier, seed):
+    q = tier == "quick"
+    nc = norm_consts(tier)
+    return [
+        MC("MC_Normalize", nc, invariants=["Confluent", "OrderFree", "FlattenOK", "Idempotent"], label="MC_Normalize/ideal"),
+        MC("MC_Normalize", nc, invariants=["ConflictRejected"], expect_violation=True,
+           label="MC_Normalize/sequential-insertion-accepts-conflicts"),
+        GEN("Gen_Normalize", nc, "norm", replay_args=["--reprs", "struct,msi,mii,typed,ptr,cfg", "--repeat", "2"],
+            label="Gen_Normalize/all-representations", min_cases=10000),
+        TRACE("Trace_Normalize", "norm", n=2000 if q else 30000, label="Trace_Normalize/random",
+              trace_file="trace_norm.ndjson"),
+    ]
+
+
+def c09(tier, seed):
+    q = tier == "quick"
+    nc = norm_consts(tier)
+    u = "<-U_Tiny" if q else "<-U_Quick"
+    k = "8" if q else "32"
+    return [
+        MC("MC_Normalize", nc, invariants=["Confluent", "OrderFree"], label="MC_Normalize/order-free"),
+        GEN("Gen_Normalize", nc, "norm", replay_args=["--reprs", "msi,mii", "--repeat", k],
+            label="Gen_Normalize/map-orders", min_cases=10000),
+        GEN("Gen_Merge", dict(UA=u, UB=u, PolSet="<-Pols", FosSet="<-FosNone"), "merge",
+            replay_args=["--reprs", "map,cfg", "--repeat", k], label="Gen_Merge/map-orders", min_cases=1000),
+    ]
+
+
 ASSUME_COMMON = [
     "the public-API observation (Unpack into map and slice, canonicalised) reads the abstract state faithfully",
     "TLC, the JVM, the Go toolchain and runtime",
@@ -100,7 +134,17 @@ STORE_RULE = ("Gen_Store: every transition of the heap/handle state machine to d
               "embedded configs, SetChild, Parent) recorded from the real code and validated by TLC. "
               "non-trivial = the operation changed the state or returned an error; distinct by (history, operation)")
 
+NORM_RULE = ("Gen_Normalize: every ordered input of <= 3 entries over 5 overlapping dotted keys x value shapes, and every "
+             "partial flattening of every tree of the bounded universe, each built as reflect.StructOf struct (exact visiting "
+             "order), map[string]interface{}, map[interface{}]interface{}, typed map/slice, pointers, nested *Config and "
+             "fixed-size arrays; Trace_Normalize: random trees (depth<=4), random flattening/representation. "
+             "non-trivial = at least two entries; distinct by input")
+
 CHECKS = {
+    "C05": dict(stages=c05, family="norm", rule=NORM_RULE, assumptions=ASSUME_COMMON),
+    "C09": dict(stages=c09, family="norm", rule=NORM_RULE + "; every map-built case is repeated K times (8 quick / 32 thorough) "
+                "with the Go maps rebuilt in a different insertion order and all outcomes compared; merges likewise",
+                assumptions=ASSUME_COMMON + ["the Go runtime's map iteration order is reached by varying insertion order and by its own per-iteration randomisation"]),
     "C12": dict(stages=c12, family="store", rule=STORE_RULE % "3 (quick) / 4 (thorough)", assumptions=ASSUME_COMMON),
     "C15": dict(stages=c15, family="store", rule=STORE_RULE % "3 (quick) / 4 (thorough)", assumptions=ASSUME_COMMON),
     "C10": dict(stages=c10, family="store", rule=STORE_RULE % "2-3 (quick) / 3-4 (thorough)", assumptions=ASSUME_COMMON),
